@@ -1,5 +1,226 @@
 package main
 
+import (
+	"fmt"
+	"math"
+	"regexp"
+	"strconv"
+	"strings"
+	"time"
+
+	"github.com/antonmedv/expr"
+	"github.com/antonmedv/expr/compiler"
+	"github.com/antonmedv/expr/file"
+	"github.com/antonmedv/expr/parser"
+	"github.com/antonmedv/expr/parser/lexer"
+	"github.com/antonmedv/expr/vm"
+)
+
+// frontOracles: the two library functions the front end consults (strconv.ParseFloat on number tokens with a
+// fraction or exponent, regexp.Compile on string tokens), tabulated for one source by lexing it with the real lexer.
+func frontOracles(src string) (floats, badre *Sx) {
+	fl := []*Sx{A("floats")}
+	br := []*Sx{A("badre")}
+	toks, err := lexer.Lex(file.NewSource(src))
+	if err == nil {
+		seenF, seenR := map[string]bool{}, map[string]bool{}
+		for _, t := range toks {
+			switch t.Kind {
+			case lexer.Number:
+				v := strings.Replace(t.Value, "_", "", -1)
+				if strings.ContainsAny(v, ".eE") && !seenF[v] {
+					seenF[v] = true
+					if f, err := strconv.ParseFloat(v, 64); err != nil {
+						fl = append(fl, L(SStr(v), A("err")))
+					} else {
+						fl = append(fl, L(SStr(v), SUint(math.Float64bits(f))))
+					}
+				}
+			case lexer.String:
+				if !seenR[t.Value] {
+					seenR[t.Value] = true
+					if _, err := regexp.Compile(t.Value); err != nil {
+						br = append(br, SStr(t.Value))
+					}
+				}
+			}
+		}
+	}
+	return L(fl...), L(br...)
+}
+
+// EvalSourceCorrespondence: the whole model pipeline (`Api.evalSource`: lexer, parser, compiler, VM models in a
+// row; theorem `eval_source_conforms`) against the real `expr.Eval` on the same source text and environment:
+// front-end rejection, compile rejection, value / error class / call log.
+func EvalSourceCorrespondence(c *Ctx, cases []*Case, budget int) {
+	r := c.R
+	old := vm.MemoryBudget
+	vm.MemoryBudget = budget
+	defer func() { vm.MemoryBudget = old }()
+	type realOut struct{ s string }
+	var lines []string
+	var reals []string
+	var kept []*Case
+	seen := map[string]bool{}
+	for _, cs := range cases {
+		if cs.Src == "" {
+			continue
+		}
+		ev := envVal(cs)
+		key := cs.Src + "|" + valSx(ev).String()
+		if seen[key] {
+			continue
+		}
+		seen[key] = true
+		var real string
+		done := make(chan struct{})
+		go func() {
+			defer close(done)
+			defer func() {
+				if e := recover(); e != nil {
+					real = fmt.Sprintf("(panic %v)", e)
+				}
+			}()
+			cs.Env.ResetLog()
+			out, err := expr.Eval(cs.Src, ev)
+			logs := []string{}
+			for _, l := range cs.Env.Log() {
+				logs = append(logs, strings.ReplaceAll(l, " ", "~"))
+			}
+			if err == nil {
+				real = fmt.Sprintf("(ok %s log=%s)", valSx(out), strings.Join(logs, ","))
+				return
+			}
+			tree, perr := parser.Parse(cs.Src)
+			if perr != nil {
+				real = "(fronterr)"
+				return
+			}
+			if _, cerr := compiler.Compile(tree, nil); cerr != nil {
+				real = "(compileerr)"
+				return
+			}
+			real = fmt.Sprintf("(err %s log=%s)", classifyRunErr(err), strings.Join(logs, ","))
+		}()
+		select {
+		case <-done:
+		case <-time.After(20 * time.Second):
+			real = "(timeout)"
+		}
+		fl, br := frontOracles(cs.Src)
+		lines = append(lines, T("evalsource", SInt(int64(budget)), asIs.Sx(), valSx(ev), SStr(cs.Src), fl, br, T("regex")).String())
+		reals = append(reals, real)
+		kept = append(kept, cs)
+	}
+	resp, err := c.AskAll(lines)
+	if err != nil {
+		r.Mismatch("driver", "evalsource", err.Error(), "")
+		return
+	}
+	for i, cs := range kept {
+		m, perr := ParseSx(resp[i])
+		if perr != nil {
+			r.Mismatch("evalsource", cs.Src, resp[i], "unparsable")
+			continue
+		}
+		logOf := func(x *Sx) string {
+			out := []string{}
+			for _, e := range x.List[1:] {
+				s := e.List[0].Str()
+				for _, a := range e.List[1:] {
+					s += "~" + a.String()
+				}
+				out = append(out, strings.ReplaceAll(s, " ", "~"))
+			}
+			return strings.Join(out, ",")
+		}
+		var model string
+		switch m.Tag() {
+		case "lexerr", "parseerr":
+			model = "(fronterr)"
+		case "compileerr":
+			model = "(compileerr)"
+		case "ok":
+			model = fmt.Sprintf("(ok %s log=%s)", m.List[1], logOf(m.List[6]))
+		case "err":
+			model = fmt.Sprintf("(err %s log=%s)", m.List[1].Atom, logOf(m.List[5]))
+		default:
+			model = m.String()
+		}
+		r.Count("evalsource:compared", 1)
+		r.Count("evalsource:"+strings.SplitN(strings.Trim(reals[i], "()"), " ", 2)[0], 1)
+		if model != reals[i] && !(strings.Contains(reals[i], "f64") && strings.Contains(cs.Src, "**")) {
+			r.Mismatch("evalsource", cs.Src+" env="+valSx(envVal(cs)).String(), model, reals[i])
+		}
+	}
+	if r.Counters["evalsource:ok"] == 0 || r.Counters["evalsource:err"] == 0 {
+		r.Mismatch("generator", "evalsource", "successful and failing evaluations", fmt.Sprint(r.Counters["evalsource:ok"], r.Counters["evalsource:err"]))
+	}
+}
+
+type negZeroEnv struct{}
+
+func (negZeroEnv) NegZero() float64 { return math.Copysign(0, -1) }
+
+// negZeroAliasProbe exhibits on the real code the one exclusion of the refinement theorem that is a defect
+// of the code (`AliasFree`, Props/C01 `negzero_alias_witness`): compiler.makeConstant de-duplicates through
+// a Go map keyed by the constant, and +0.0 == -0.0 as map keys, so a -0.0 constant (produced by a ConstExpr
+// function) shares the pool slot of an earlier 0.0 and loses its sign.  Oracle: the same source without
+// ConstExpr (the call happens at run time).
+func negZeroAliasProbe(c *Ctx) {
+	r := c.R
+	src := "[0.0, NegZero()]"
+	signs := func(opts ...expr.Option) (string, error) {
+		p, err := expr.Compile(src, append([]expr.Option{expr.Env(negZeroEnv{})}, opts...)...)
+		if err != nil {
+			return "", err
+		}
+		out, err := expr.Run(p, negZeroEnv{})
+		if err != nil {
+			return "", err
+		}
+		xs, ok := out.([]interface{})
+		if !ok || len(xs) != 2 {
+			return "", fmt.Errorf("unexpected result %v", out)
+		}
+		res := ""
+		for _, x := range xs {
+			f, ok := x.(float64)
+			if !ok {
+				return "", fmt.Errorf("unexpected element %v", x)
+			}
+			res += fmt.Sprintf("%v/signbit=%v ", f, math.Signbit(f))
+		}
+		return res, nil
+	}
+	var plain, folded string
+	var err1, err2 error
+	func() {
+		defer func() {
+			if e := recover(); e != nil {
+				err1 = fmt.Errorf("panic: %v", e)
+			}
+		}()
+		plain, err1 = signs()
+		folded, err2 = signs(expr.ConstExpr("NegZero"))
+	}()
+	r.Case("negzero-alias-probe", true)
+	if err1 != nil || err2 != nil {
+		r.Mismatch("generator", src, "both variants run", fmt.Sprintf("%v / %v", err1, err2))
+		return
+	}
+	r.Count("negzero-probe", 1)
+	if plain != folded {
+		r.Violate(Violation{
+			What:   "a -0.0 constant shares the constant-pool slot of an earlier 0.0 and loses its sign",
+			Key:    "c01:negative-zero-constant-aliased",
+			Input:  map[string]string{"expr": src, "option": "expr.ConstExpr(\"NegZero\")", "env": "NegZero() = math.Copysign(0, -1)"},
+			Expect: plain,
+			Got:    folded,
+		})
+	}
+}
+
 func runC01(c *Ctx) {
 	r := c.R
 	r.Rule = "generated expressions (type-directed; every node kind, nested closures and conditionals) x modes x environments: (i) compile model = compiler.Compile byte for byte, (ii) VM model = (*VM).Run, (iii) reference evaluator Spec.eval = real run (value, error class, call log, allocation total); non-trivial = source longer than 6 characters"
@@ -24,8 +245,24 @@ func runC01(c *Ctx) {
 	ok = append(ok, CompileCorrespondenceBuilt(c, enum)...)
 	res := VMCorrespondence(c, ok, 1000)
 	// tie of the Spec as the theorems use it (mirroring the code's known deviations)
+	tieDiff := map[*VMResult]bool{}
 	SpecCorrespondence(c, res, 1000, asIs.RangeSigned, true, func(vr *VMResult, spec, real string) {
+		tieDiff[vr] = true
 		r.Mismatch("spec", vr.Case.Src+" ["+vr.Case.Mode.String()+"] env="+valSx(envVal(vr.Case)).String()+" tree="+vr.Case.B.TreeSx, spec, real)
+	})
+	negZeroAliasProbe(c)
+	// end to end through ALL model stages: source text -> lexer, parser, compiler, VM models vs expr.Eval
+	EvalSourceCorrespondence(c, cases, 1000)
+	// the property oracle: the language definition itself (left-to-right evaluation, unsigned range sizes)
+	SpecCorrespondence(c, res, 1000, false, false, func(vr *VMResult, spec, real string) {
+		key := "c01:differs-from-language-definition"
+		if !tieDiff[vr] && strings.Contains(vr.Case.B.TreeSx, "(slice ") {
+			// the one listed deviation: the compiler emits the `to` bound of a[from:to] before `from`
+			key = "c01:slice-bounds-evaluated-right-to-left"
+		}
+		r.Violate(Violation{What: "compiled evaluation differs from the reference evaluator (value, error class, call log or allocation total)",
+			Key: key, Input: map[string]string{"expr": vr.Case.Src, "mode": vr.Case.Mode.String(), "env": valSx(envVal(vr.Case)).String(), "tree": vr.Case.B.TreeSx},
+			Expect: spec, Got: real})
 	})
 }
 
